@@ -81,7 +81,10 @@ def step(w, prev, cur, op, res):
                 if res.get('ok'):
                     return [('created-under-cancelled', 'new jobs and sub-groups cannot be added beneath a cancelled group',
                              f'{kind} accepted although target group(s) {under_cancelled} of batch {b} are cancelled')]
-                if res.get('http', 0) // 100 != 4:
+                missing = [t for t in targets if (b, t) not in prev.groups]
+                if res.get('http', 0) // 100 != 4 and not missing:
+                    # (a bunch that also names a group that was reserved but never created fails on the foreign key first: refused,
+                    # but not by the cancellation check, so the status is not judged)
                     return [('create-under-cancelled-not-4xx', 'new jobs and sub-groups beneath a cancelled group are rejected',
                              f'{kind}: {res}')]
                 for t in ('jobs', 'groups'):
